@@ -3,7 +3,7 @@
 (* The specified functions have no state: each event is judged on its own, at every position of a call history. *)
 EXTENDS Combinat, Json, IOUtils
 Traces == ndJsonDeserialize(IOEnv.TRACE_FILE)
-VARIABLES tid, i, nbad
+VARIABLES vvTid, vvPos, vvBad
 C(name, exp) == [c |-> name, e |-> exp]
 NoRaise(e, rest) == IF e.raised # "" THEN <<C("must-not-raise", "a value")>> ELSE rest
 Judge(e) ==
@@ -18,10 +18,10 @@ Judge(e) ==
                     ELSE IF ~AnswerOk(e.items, e.s, e.obs) THEN <<C("answer-is-a-sub-collection-with-the-sum", e.s)>>
                     ELSE IF e.op = "dynprog" /\ Len(e.obs) # MinCard(e.items, e.s) THEN <<C("minimal-cardinality", MinCard(e.items, e.s))>>
                     ELSE <<>>)
-Init == tid \in 1..Len(Traces) /\ i = 0 /\ nbad = 0
-Next == /\ i < Len(Traces[tid].ev)
-        /\ \E bad \in {Judge(Traces[tid].ev[i+1])} :
-           /\ i' = i + 1 /\ nbad' = nbad + Len(bad) /\ UNCHANGED tid
-           /\ (bad # <<>> => PrintT(ToJson([tid |-> tid, step |-> i+1, bad |-> bad])))
-           /\ (i + 1 = Len(Traces[tid].ev) => PrintT(ToJson([tid |-> tid, done |-> TRUE, nbad |-> nbad'])))
+Init == vvTid \in 1..Len(Traces) /\ vvPos = 0 /\ vvBad = 0
+Next == /\ vvPos < Len(Traces[vvTid].ev)
+        /\ \E bad \in {Judge(Traces[vvTid].ev[vvPos+1])} :
+           /\ vvPos' = vvPos + 1 /\ vvBad' = vvBad + Len(bad) /\ UNCHANGED vvTid
+           /\ (bad # <<>> => PrintT(ToJson([tid |-> vvTid, step |-> vvPos+1, bad |-> bad])))
+           /\ (vvPos + 1 = Len(Traces[vvTid].ev) => PrintT(ToJson([tid |-> vvTid, done |-> TRUE, nbad |-> vvBad'])))
 =============================================================================
